@@ -144,7 +144,7 @@ fn projects_family(max_ids: usize) -> FSpace {
     FSpace {
         name: format!("PROJECTS/ids<={max_ids}"),
         n: total,
-        describe: "every assignment of 5 representative contents (valid interface, valid parcelable, recovered-error file, unrecovered-error file, empty string) to 0..=n ids".into(),
+        describe: "every assignment of 5 representative contents (valid interface, valid parcelable, recovered-error file, unrecovered-error file, empty string) to 0..=n ids; ids are strings or values of a type whose Debug output collapses several ids".into(),
         limit_s: 120,
         gen: Box::new(move |i| {
             let n = (0..=max_ids).find(|n| i < offsets[n + 1]).unwrap();
@@ -154,7 +154,16 @@ fn projects_family(max_ids: usize) -> FSpace {
                 digits
                     .iter()
                     .enumerate()
-                    .map(|(k, c)| (format!("id{k}"), PROJECT_CONTENTS[*c].to_string()))
+                    // id types: plain strings, or (two out of three cases) a user type whose
+                    // Debug output does not tell all ids apart (Eq and Hash do)
+                    .map(|(k, c)| {
+                        let id = match i % 3 {
+                            0 => format!("id{k}"),
+                            1 => format!("#odd:same:{k}"),
+                            _ => format!("#odd:u{}:{k}", k % 2),
+                        };
+                        (id, PROJECT_CONTENTS[*c].to_string())
+                    })
                     .collect(),
             )
         }),
@@ -260,8 +269,43 @@ pub fn spaces(tier: Tier) -> Vec<FSpace> {
 }
 
 /// Run one case: add every file, validate; the property's oracle.
+/// An id type whose `Debug` shows only part of the value (`Eq` / `Hash` see all of it).
+#[derive(Clone, PartialEq, Eq, Hash)]
+struct OddId {
+    uri: String,
+    version: String,
+}
+impl std::fmt::Debug for OddId {
+    fn fmt(&self, f: &mut std::fmt::Formatter<'_>) -> std::fmt::Result {
+        write!(f, "OddId({})", self.uri)
+    }
+}
+impl OddId {
+    fn parse(s: &str) -> OddId {
+        let rest = s.trim_start_matches("#odd:");
+        let (uri, version) = rest.split_once(':').unwrap_or((rest, ""));
+        OddId { uri: uri.to_string(), version: version.to_string() }
+    }
+    fn show(&self) -> String {
+        format!("#odd:{}:{}", self.uri, self.version)
+    }
+}
+
 pub fn run_case(files: &[(String, String)]) -> Result<(), String> {
+    let odd = files.iter().any(|f| f.0.starts_with("#odd:"));
     let res = guarded(|| {
+        if odd {
+            let mut p: Parser<OddId> = Parser::new();
+            for (id, t) in files {
+                p.add_content(OddId::parse(id), t);
+            }
+            let r1 = p.validate();
+            let _ = aidl_parser::verif_hooks::take_expected();
+            let _ = aidl_parser::verif_hooks::take_orders();
+            let mut got: Vec<(String, String)> = r1.iter().map(|(k, v)| (k.show(), v.id.show())).collect();
+            got.sort();
+            return got;
+        }
         let mut p: Parser<String> = Parser::new();
         for (id, t) in files {
             p.add_content(id.clone(), t);
@@ -309,6 +353,11 @@ fn inflight_dir() -> String {
 }
 
 /// child: explore everything; exit code 0 / 1 / 2 as every check, 3 = a case exceeded its limit
+thread_local! {
+    /// the last inputs this worker thread has executed (attribution of state-dependent failures)
+    static RECENT: std::cell::RefCell<std::collections::VecDeque<Case>> = std::cell::RefCell::new(std::collections::VecDeque::new());
+}
+
 pub fn run_child(tier: Tier, seed: u64) -> i32 {
     let stats = Stats::new(PROP, tier, seed);
     let dir = inflight_dir();
@@ -368,18 +417,40 @@ pub fn run_child(tier: Tier, seed: u64) -> i32 {
                 let t = &fl.first().map(|f| f.1.clone()).unwrap_or_default();
                 stats.sample(json!({"space": sp.name, "label": label, "text": t.chars().take(300).collect::<String>()}));
             }
+            let this = Case {
+                prop: PROP.into(),
+                kind: sp.name.clone(),
+                label,
+                files: fl,
+                expect: json!(null),
+            };
             if let Err(e) = r {
                 stats.outcome("violating-cases");
-                stats.violation(Violation {
-                    case: Case {
-                        prop: PROP.into(),
-                        kind: sp.name.clone(),
-                        label,
-                        files: fl,
-                        expect: json!(null),
-                    },
-                    message: e,
-                    finding_key: None,
+                // by itself (fresh thread), or only after what this worker thread ran before?
+                let alone = crate::engine::seeded(super::case_seed(&this), || run_case(&this.files));
+                match alone {
+                    Err(e2) => stats.violation(Violation { case: this.clone(), message: e2, finding_key: None }),
+                    Ok(()) => {
+                        let before: Vec<Case> = RECENT.with(|q| q.borrow().iter().cloned().collect());
+                        let mut ic = this.clone();
+                        ic.expect = json!({"__inner": null, "__after": before});
+                        ic.kind = format!("interference/{}", ic.kind);
+                        stats.violation(Violation {
+                            case: ic,
+                            message: format!("the verdict for this input depends on what the thread did before ({} earlier inputs) - alone it passes: {e}", before.len()),
+                            finding_key: None,
+                        });
+                    }
+                }
+            }
+            // remember the last inputs of this worker thread (small ones only)
+            if this.files.iter().map(|f| f.1.len()).sum::<usize>() < 4096 {
+                RECENT.with(|q| {
+                    let mut q = q.borrow_mut();
+                    if q.len() >= 12 {
+                        q.pop_front();
+                    }
+                    q.push_back(this);
                 });
             }
         });
